@@ -43,10 +43,11 @@ type wireRec struct {
 }
 
 type recCase struct {
-	ID    int       `json:"id"`
-	Combo string    `json:"combo"` // peer/version/suite/dir, e.g. go/tls12/c02f/c2s
-	N     int       `json:"n"`
-	Wire  []wireRec `json:"wire"`
+	ID    int                      `json:"id"`
+	Combo string                   `json:"combo"` // peer/version/suite/dir, e.g. go/tls12/c02f/c2s
+	N     int                      `json:"n"`
+	RSeed int64                    `json:"rseed"` // seed of this case's concrete choices (chunk bytes, flipped bits, cut offsets)
+	Wire  []wireRec                `json:"wire"`
 	Acts  []map[string]interface{} `json:"acts"`
 	ExpP  struct {
 		Clean   int  `json:"clean"`
@@ -59,7 +60,7 @@ type recCase struct {
 }
 
 type combo struct {
-	peer  string // "go": crypto/tls client, "bfe": bfe_tls.Client
+	peer  string // "go": crypto/tls client, "bfe": bfe_tls.Client, "raw": bfe_tls both ends, keyed without a handshake
 	vers  uint16
 	suite uint16
 	dir   string // "c2s" (judged at the bfe server) | "s2c"
@@ -80,7 +81,7 @@ func parseCombo(s string) (combo, error) {
 	if _, err := fmt.Sscanf(f[2], "%x", &id); err != nil {
 		return combo{}, fmt.Errorf("bad suite in combo %q", s)
 	}
-	if f[0] != "go" && f[0] != "bfe" || f[3] != "c2s" && f[3] != "s2c" {
+	if f[0] != "go" && f[0] != "bfe" && f[0] != "raw" || f[3] != "c2s" && f[3] != "s2c" {
 		return combo{}, fmt.Errorf("bad combo %q", s)
 	}
 	return combo{f[0], v, id, f[3]}, nil
@@ -117,11 +118,11 @@ func isECDSA(id uint16) bool {
 
 // ---------------------------------------------------------------- certificates
 var (
-	certOnce          sync.Once
-	rsaDER, ecDER     []byte
-	rsaKey            *rsa.PrivateKey
-	ecKey             *ecdsa.PrivateKey
-	certErr           error
+	certOnce      sync.Once
+	rsaDER, ecDER []byte
+	rsaKey        *rsa.PrivateKey
+	ecKey         *ecdsa.PrivateKey
+	certErr       error
 )
 
 func makeCerts() {
@@ -168,7 +169,7 @@ func serverConfig(cb combo) *bfe_tls.Config {
 		MinVersion:             bfe_tls.VersionSSL30,
 		MaxVersion:             bfe_tls.VersionTLS12,
 		SessionTicketsDisabled: true,
-		ServerRule: fixedRule{&bfe_tls.Rule{NextProtos: noProtos{}, Grade: bfe_tls.GradeC, Chacha20: true}},
+		ServerRule:             fixedRule{&bfe_tls.Rule{NextProtos: noProtos{}, Grade: bfe_tls.GradeC, Chacha20: true}},
 	}
 }
 
@@ -191,7 +192,7 @@ func readRawRecord(r io.Reader) (rawRecord, error) {
 
 type pump struct {
 	mu       sync.Mutex
-	mode     string // pass | capture | discard
+	mode     string      // pass | capture | discard
 	hs       []rawRecord // records seen while passing (handshake phase)
 	captured []rawRecord
 	done     chan struct{}
@@ -252,6 +253,21 @@ func connect(cb combo) (*session, error) {
 	s := &session{cb: cb, pipes: []net.Conn{cA, mA, mB, sB}, mA: mA, mB: mB,
 		c2s: &pump{mode: "pass", done: make(chan struct{})},
 		s2c: &pump{mode: "pass", done: make(chan struct{})}}
+	if cb.peer == "raw" {
+		// SSL 3.0 has no peer that can shake hands with the server here: both ends are bfe_tls
+		// record layers keyed through the package's own key schedule (overlay export)
+		secret := make([]byte, 48+32+32)
+		rand.Read(secret)
+		cl, sv, err := bfe_tls.VerifTlsrecKeyedPair(cA, sB, cb.vers, cb.suite, secret[:48], secret[48:80], secret[80:])
+		if err != nil {
+			s.closeAll()
+			return nil, err
+		}
+		s.client, s.server = cl, sv
+		go s.c2s.run(mA, mB)
+		go s.s2c.run(mB, mA)
+		return s, nil
+	}
 	s.server = bfe_tls.Server(sB, serverConfig(cb))
 	if cb.peer == "go" {
 		s.client = tls.Client(cA, &tls.Config{InsecureSkipVerify: true, ServerName: "verif.test",
@@ -338,14 +354,15 @@ func classify(err error) string {
 }
 
 type runObs struct {
-	Delivered int    `json:"delivered"`          // bytes handed to the application
-	Reads     []int  `json:"reads,omitempty"`    // sizes of the successful reads
-	PrefixOK  bool   `json:"prefix_ok"`          // delivered bytes are a prefix of the sent stream
-	Err       string `json:"err"`                // final error text
-	Class     string `json:"class"`              // its class
-	Records   int    `json:"records"`            // application records captured
+	Delivered int    `json:"delivered"`       // bytes handed to the application
+	Reads     []int  `json:"reads,omitempty"` // sizes of the successful reads
+	PrefixOK  bool   `json:"prefix_ok"`       // delivered bytes are a prefix of the sent stream
+	Err       string `json:"err"`             // final error text
+	Class     string `json:"class"`           // its class
+	Records   int    `json:"records"`         // application records captured
 	Version   string `json:"version,omitempty"`
 	Suite     string `json:"suite,omitempty"`
+	Panic     string `json:"panic,omitempty"` // the connection under test panicked
 }
 
 // runWire performs one behaviour.  wire == nil means the identity (all captured records forwarded).
@@ -375,7 +392,15 @@ func runWire(cb combo, n int, wire []wireRec, rnd *mrand.Rand, seed int64) (obs 
 	for i := 1; i <= n; i++ {
 		c := chunkBytes(i, sizes[(i-1)%len(sizes)], seed)
 		sent = append(sent, c...)
-		if _, werr := sender.Write(c); werr != nil {
+		var werr error
+		if p := vh.Guard(func() { _, werr = sender.Write(c) }); p != "" {
+			if cb.peer == "go" && cb.dir == "c2s" {
+				return obs, nil, nil, fmt.Errorf("crypto/tls Write panicked: %s", p)
+			}
+			obs.Panic = "Conn.Write: " + p
+			return obs, sent, nil, nil
+		}
+		if werr != nil {
 			return obs, nil, nil, fmt.Errorf("sender write failed: %v", werr)
 		}
 	}
@@ -419,16 +444,26 @@ func runWire(cb combo, n int, wire []wireRec, rnd *mrand.Rand, seed int64) (obs 
 	var got []byte
 	buf := make([]byte, 1<<16)
 	var rerr error
-	for rerr == nil {
-		var k int
-		k, rerr = receiver.Read(buf)
-		if k > 0 {
-			got = append(got, buf[:k]...)
-			obs.Reads = append(obs.Reads, k)
+	// only the calls into the connection under test run under recover: a panic anywhere else
+	// in this harness must crash it (machinery failure), never count as a verdict
+	if p := vh.Guard(func() {
+		for rerr == nil {
+			var k int
+			k, rerr = receiver.Read(buf)
+			if k > 0 {
+				got = append(got, buf[:k]...)
+				obs.Reads = append(obs.Reads, k)
+			}
+			if len(obs.Reads) > 4*n+100 {
+				rerr = errors.New("verif: receiver keeps delivering")
+			}
 		}
-		if len(obs.Reads) > 4*n+100 {
-			rerr = errors.New("verif: receiver keeps delivering")
+	}); p != "" {
+		if cb.peer == "go" && cb.dir == "s2c" {
+			return obs, nil, nil, fmt.Errorf("crypto/tls Read panicked: %s", p)
 		}
+		obs.Panic = "Conn.Read: " + p
+		return obs, sent, recs, nil
 	}
 	obs.Delivered = len(got)
 	obs.PrefixOK = len(got) <= len(sent) && bytes.Equal(got, sent[:len(got)])
@@ -524,6 +559,9 @@ func buildWire(cb combo, recs []rawRecord, wire []wireRec, hsFin rawRecord, rnd 
 		case "header":
 			r = r[:1+rnd.Intn(4)]
 		case "body":
+			if n < 1 {
+				return nil, errors.New("cannot cut inside an empty record body")
+			}
 			r = r[:5+rnd.Intn(n)]
 		default:
 			return nil, fmt.Errorf("unknown part %q", w.Part)
@@ -590,14 +628,22 @@ func recordRun() {
 			if runErr != nil {
 				return
 			}
-			rnd := mrand.New(mrand.NewSource(seed*1000003 + int64(c.ID)))
+			rs := c.RSeed
+			if rs == 0 {
+				rs = seed*1000003 + int64(c.ID)
+			}
+			rnd := mrand.New(mrand.NewSource(rs))
 			obs, _, _, runErr = runWire(cb, c.N, c.Wire, rnd, seed)
 		})
 		shape := shapeSig(c)
 		res := vh.Result{ID: c.ID, Obs: obs}
 		switch {
 		case ptxt != "":
-			res.Sig, res.Detail = "panic/"+c.Combo+"/"+shape, ptxt
+			// not inside a call into the connection under test: a defect of this harness
+			vh.Emit(map[string]interface{}{"id": c.ID, "machinery": c.Combo + ": harness panic: " + ptxt})
+			return
+		case runErr == nil && obs.Panic != "":
+			res.Sig, res.Detail = "panic/"+c.Combo+"/"+shape, obs.Panic
 		case !fin:
 			res.Sig, res.Detail = "hang/"+c.Combo+"/"+shape, "no result within 60 s"
 		case runErr != nil:
